@@ -146,6 +146,53 @@ def gen_sequence(r):
     return ce, cd, slack, prior, ops
 
 
+def _frac(v):
+    return Fraction(v)
+
+
+# Numeric types in which a caller may hand numbers to the accountant (all are numbers.Real).  A sequence run under a wrap
+# is first QUANTISED to values that type represents exactly, so that the model (which receives the double with the same
+# value) and the library see the same real numbers; what differs is only the arithmetic the library would do in that
+# type if it did not convert (float32 accumulation of the total was a genuine defect, repaired in 88c013f).
+WRAPS = {
+    "f32": lambda v: np.float32(v),
+    "f16": lambda v: np.float16(v),
+    "f64": lambda v: np.float64(v),
+    "ld": lambda v: np.longdouble(v),
+    # fractions.Fraction is numbers.Real too, but numpy's ufuncs refuse it (np.log(1/slack) raises TypeError): a loud
+    # failure of an exotic type, outside the model - not generated
+}
+
+
+def quantise(seq, wrap):
+    """the same sequence with every number rounded to one the wrap's type represents exactly (None if it cannot be)"""
+    if wrap in ("f32", "f16"):
+        ty = np.float32 if wrap == "f32" else np.float16
+        with np.errstate(all="ignore"):
+            ce0 = seq[0]
+            lo = 0.0 if math.isinf(ce0) else float(ty(ce0)) * 1e-14
+
+            def q(v):
+                v = float(ty(v))
+                # `0 < epsilon < ceiling * 1e-14` is evaluated by numpy in the narrow type when epsilon is a float32 (the
+                # Python-float threshold is the weak operand) - a razor-edge difference in the minimum-epsilon guard
+                # that no property speaks about: keep typed values a factor 4 away from that threshold
+                if lo > 0 and lo / 4 < v < lo * 4:
+                    v = float(ty(lo * 8))
+                return v
+            ce, cd, slack, prior, ops = seq[:5]
+            ops2 = []
+            for op in ops:
+                if op[0] in ("spend", "check"):
+                    ops2.append((op[0], q(op[1]), q(op[2])))
+                elif op[0] == "slack":
+                    ops2.append(("slack", q(op[1])))
+                else:
+                    ops2.append(op)
+            return (q(ce), q(cd), q(slack), [(q(e), q(d)) for e, d in prior], ops2, wrap)
+    return tuple(seq[:5]) + (wrap,)
+
+
 def snapshot(acc):
     t = acc.total()
     return (list(acc.spent_budget), acc.slack, (float(t[0]), float(t[1])))
@@ -154,11 +201,12 @@ def snapshot(acc):
 def run_impl(seq, ctx=None, direct=True):
     """Run one sequence on the real accountant.  Returns (records, violation|None).
     records: list of (op-tuple, kind, len, slack, tot_eps, tot_delta, extra)"""
-    ce, cd, slack, prior, ops = seq
+    ce, cd, slack, prior, ops = seq[:5]
+    W = WRAPS[seq[5]] if len(seq) > 5 else (lambda v: v)   # numeric type in which every number reaches the library
     recs = []
-    prior_list = list(prior) if prior else None     # stays reachable by the caller after construction
+    prior_list = [(W(e), W(d)) for e, d in prior] if prior else None     # stays reachable by the caller after construction
     try:
-        acc = dp.BudgetAccountant(ce, cd, slack, spent_budget=prior_list)
+        acc = dp.BudgetAccountant(W(ce), W(cd), W(slack), spent_budget=prior_list)
         exc = None
     except Exception as e:  # noqa
         acc, exc = None, e
@@ -188,11 +236,11 @@ def run_impl(seq, ctx=None, direct=True):
         extra = None
         try:
             if op[0] == "spend":
-                acc.spend(op[1], op[2])
+                acc.spend(W(op[1]), W(op[2]))
             elif op[0] == "check":
-                acc.check(op[1], op[2])
+                acc.check(W(op[1]), W(op[2]))
             elif op[0] == "slack":
-                acc.slack = op[1]
+                acc.slack = W(op[1])
             elif op[0] == "total":
                 acc.total()
             elif op[0] == "remaining":
@@ -248,7 +296,7 @@ def run_impl(seq, ctx=None, direct=True):
 
 
 def driver_lines(seq):
-    ce, cd, slack, prior, ops = seq
+    ce, cd, slack, prior, ops = seq[:5]
     flat = []
     for e, d in prior:
         flat += [f2b(e), f2b(d)]
@@ -268,7 +316,7 @@ def driver_lines(seq):
 def near_boundary(seq, upto):
     """is the decision at step `upto` within rounding of the ceiling? (then model and code may legitimately differ
     when slack > 0, because exp/log differ by an ulp)"""
-    ce, cd, slack, prior, ops = seq
+    ce, cd, slack, prior, ops = seq[:5]
     try:
         acc = dp.BudgetAccountant(ce, cd, slack, spent_budget=list(prior) if prior else None)
     except Exception:
@@ -350,6 +398,16 @@ def check(ctx):
     r = ctx.fork("seqs")
     n = ctx.budget(400, 6000)
     seqs = list(FIXED_SEQS) + [gen_sequence(r) for _ in range(n)]
+    # numeric-type stratum: a share of the sequences is run again with every number handed over as numpy float32 /
+    # float16 / float64 / longdouble or fractions.Fraction (quantised first, see WRAPS)
+    rw = ctx.fork("wraps")
+    typed = [quantise(s_, rw.choice(["f32", "f32", "f16", "f64", "ld"]))
+             for s_ in (FIXED_SEQS + seqs[len(FIXED_SEQS):len(FIXED_SEQS) + max(40, n // 4)])]
+    typed += [(1.0, 0.0, 0.0, [], [("spend", 0.5, 0.0), ("spend", float(np.float32(0.50000003)), 0.0), ("total",)], "f32"),
+              (1.0, 0.0, 0.0, [], [("spend", 0.5, 0.0)] + [("spend", float(np.float32(1e-9)), 0.0)] * 30 +
+               [("spend", 0.5, 0.0), ("total",)], "f32"),
+              (float(np.float32(0.3)), 0.5, 0.0, [(0.125, 0.25)], [("remaining", 3), ("spend", 0.05, 0.125), ("rebuild",)], "f32")]
+    seqs += [quantise(t[:5], t[5]) for t in typed]
     all_lines = []
     spans = []
     impl = []
